@@ -858,7 +858,11 @@ def result_level_decision(work: Work, cases, tag="evalresult"):
             except NotImplementedError:
                 final["err"] = "unsupported"
             tree = eval_tree_of(expr)
-            keys = sorted({int(k) for k in re.findall(r"\[(\d+)\]", expr) if 1 <= int(k) <= 499 or 2000 <= int(k) <= 2499})
+
+            def rc_keys(n):
+                return ({n[2]} if n[1] == "rc" else set()) if n[0] == "leaf" else rc_keys(n[1]) | rc_keys(n[2])
+
+            keys = sorted(rc_keys(tree))
             traces.append({"id": i, "asg": [[k, asg.get(k, asg.get(str(k), "U"))] for k in keys], "tree": tree, "final": final})
 
     set_keymap(None)
